@@ -508,6 +508,7 @@ fn cmd_check(args: &Args) -> i32 {
             }
             Err(e) => J::obj().with("applicable", J::Bool(true)).with("error", J::Str(e)),
         },
+        None if args.get("conc-skipped").is_some() => J::obj().with("applicable", J::Bool(true)).with("ran", J::Bool(false)).with("reason", J::Str(format!("the tree mentions atomics, but the concurrent phase could not be run on it: {}", args.get("conc-skipped").unwrap_or("")))),
         None => J::obj().with("applicable", J::Bool(false)).with("reason", J::str("the non-test source of the tree contains no `sync::atomic`: there is no shared state whose accesses a thread scheduler could interleave (DESIGN 1); on a tree that has some, check.sh rebuilds the crate with core::sync::atomic replaced by shuttle::sync::atomic and explores interleavings of two or three simulated callers (DESIGN 10.13)")),
     };
 
@@ -556,7 +557,7 @@ fn cmd_check(args: &Args) -> i32 {
         }
     }
     let fault_census = J::obj()
-        .with("thread_or_task_interleaving", J::str("none to schedule: no std, no sync, no async; mutation needs &mut self (exclusive)"))
+        .with("thread_or_task_interleaving", J::str(if args.get("conc-report").is_some() { "this tree has process-wide atomics: interleavings of simulated callers were explored with shuttle (see concurrent_phase); the unchanged crate has none to schedule" } else { "none to schedule: no std, no sync, no async; mutation needs &mut self (exclusive)" }))
         .with("clock_or_timer", J::str("none: no time type is imported"))
         .with("network_delivery", J::str("none: no transport"))
         .with("disk_or_stream_io", J::str("none: parsers take a complete &str; nothing persists"))
@@ -577,7 +578,7 @@ fn cmd_check(args: &Args) -> i32 {
         .with("simulated_time", J::str("no clock in the system; logical steps only (steps_total)"))
         .with("faults_injected", J::obj())
         .with("fault_census", fault_census)
-        .with("allocations_inside_crate_calls", J::obj().with("crate_calls", J::u(alloc_calls)).with("allocations", J::u(allocs)).with("note", J::str("counting global allocator enabled only around calls into ckc-rs; informational, never a violation")))
+        .with("allocations_inside_crate_calls", J::obj().with("crate_calls_about", J::u(alloc_calls)).with("allocations", J::u(allocs)).with("note", J::str("counting global allocator enabled only around calls into ckc-rs; informational, never a violation")))
         .with("distinct_states", J::obj().with("abstract_step_cells_reached", J::u(g(p, "cells_reached"))).with("abstract_step_cells_possible", J::u(g(p, "cells_possible"))).with("abstract_step_cells_possible_is_exact_not_upper_bound", p.get("cells_possible_is_exact").cloned().unwrap_or(J::Null)).with("cell_rule", J::str(cell_rule)).with("distinct_final_world_shapes", J::u(g(p, "distinct_world_shapes"))).with(if prop == "C15" { "distinct_set_values_held_by_a_register" } else { "distinct_set_values_not_applicable" }, if prop == "C15" { J::u(g(p, "distinct_values")) } else { J::Null }).with("distinct_set_values_counted_over_first_runs", if prop == "C15" { J::u(g(p, "values_sampled_runs")) } else { J::Null }))
         .with("op_bigrams_seen", J::u(g(p, "op_bigrams_seen")))
         .with("op_bigrams_possible", J::u(g(p, "op_bigrams_possible")))
@@ -599,7 +600,7 @@ fn cmd_check(args: &Args) -> i32 {
         "Copy assignment of a container is a bitwise copy (language guarantee)",
         "the harness's own bookkeeping (array model / membership model, a few dozen lines of plain loops) is correct; it is exercised by the sensitivity mutants, which must fail for the right reason",
         "sampled, not exhaustive: a clean batch is evidence, not proof",
-        "no fault kind of the method applies to this crate (see fault_census); this is the fault-free half of deterministic simulation only",
+        "no fault kind of the method applies to the unchanged crate (see fault_census): this is the fault-free half of deterministic simulation, plus schedule exploration when a tree brings atomics (concurrent_phase)",
     ]
     .iter()
     .map(|s| J::str(s))
@@ -698,7 +699,7 @@ fn cmd_conc(args: &Args) -> i32 {
     let seed = args.u64("seed").unwrap_or_else(seed_from_env);
     let iters = args.u64("iterations").unwrap_or(3000);
     let lanes = args.u64("lanes").unwrap_or(16);
-    let workers = workers_default();
+    let workers = workers_default().max(1);
     let t0 = Instant::now();
     let me = std::env::current_exe().unwrap_or_else(|_| PathBuf::from("ckc-sim"));
     let work = root.join("sim/target/conc/run").join(format!("{}-{}", prop, std::process::id()));
@@ -723,12 +724,15 @@ fn cmd_conc(args: &Args) -> i32 {
     let mut lanes_json: Vec<J> = Vec::new();
     let mut first_fail: Option<J> = None;
     let mut notes: Vec<String> = Vec::new();
+    let mut lanes_without_verdict = 0u64;
     for lane in 0..lanes {
         match read_json(&work.join(format!("lane-{}.json", lane))) {
             Ok(j) => {
                 done += j.get("iterations_done").and_then(|x| x.as_u64()).unwrap_or(0);
-                if j.get("failed").and_then(|x| x.as_bool()) == Some(true) && first_fail.is_none() {
+                if j.get("failed").and_then(|x| x.as_bool()) == Some(true) && first_fail.is_none() && j.get("violation").map(|v| *v != J::Null).unwrap_or(false) {
                     first_fail = Some(j.clone());
+                } else if j.get("failed").and_then(|x| x.as_bool()) == Some(true) && j.get("violation").map(|v| *v == J::Null).unwrap_or(true) {
+                    lanes_without_verdict += 1;
                 }
                 lanes_json.push(j);
             }
@@ -757,6 +761,7 @@ fn cmd_conc(args: &Args) -> i32 {
                     .with("mode", J::str("shuttle-schedule"))
                     .with("property_id", J::str(&prop))
                     .with("verif_seed", J::u(seed))
+                    .with("verif_seed_str", J::Str(seed.to_string()))
                     .with("schedule_file", J::Str(keep.display().to_string()))
                     .with("scheduler", f.get("scheduler").cloned().unwrap_or(J::Null))
                     .with("what", J::str("two or three simulated caller threads, each running its own short history against the shadow build of the crate in which core::sync::atomic is shuttle::sync::atomic; the schedule file is shuttle's own replayable encoding of which thread ran at every atomic operation"))
@@ -783,6 +788,7 @@ fn cmd_conc(args: &Args) -> i32 {
                     .with("mode", J::str("shuttle-lane"))
                     .with("property_id", J::str(&prop))
                     .with("verif_seed", J::u(seed))
+                    .with("verif_seed_str", J::Str(seed.to_string()))
                     .with("lane", J::u(lane))
                     .with("iterations", J::u(iters))
                     .with("what", J::str("the failing iteration depends on state left by earlier iterations of its lane; the replay re-runs the lane's schedules from its seed in a fresh process"))
@@ -807,6 +813,8 @@ fn cmd_conc(args: &Args) -> i32 {
         .with("lanes", J::u(lanes))
         .with("iterations_per_lane", J::u(iters))
         .with("schedules_explored", J::u(done))
+        .with("schedules_explored_note", J::str("completed iterations of lanes that ran to their end; an iteration that reaches the step limit (a caller spinning on a flag) is abandoned by shuttle and still counted"))
+        .with("lanes_ended_early_without_a_verdict", J::u(lanes_without_verdict))
         .with("schedulers", J::str("random (3 lanes of 4), PCT depth 3 (1 lane of 4)"))
         .with("callers_per_schedule", J::str("2 or 3 simulated threads, each with its own objects, model and invariants"))
         .with("violations", J::u(violations))
